@@ -33,11 +33,11 @@ def main(tier, only):
                       "path_to_tree", "connect_trees"]])
     L, to = (4, 300) if tier == "quick" else (6, 3000)
     cfgs = []
-    for g in (0, 1, 2, 3, 4, 5):
+    for g in (0, 1, 2, 3, 4, 5, 6, 7):
         for pf in (("0,0,0", "0,0,1", "0,0,2", "0,1", "0,2") if g in (1, 3) else ("0,0", "0,1", "0,2")):
             cfgs.append(dict(tag="g%d.prefix%s" % (g, pf.replace(",", "")), env={"VERIF_G13": str(g), "VERIF_L": str(L), "VERIF_PREFIX": pf}, only=None, timeout=to))
         cfgs.append(dict(tag="g%d.short" % g, env={"VERIF_G13": str(g), "VERIF_L": "2" if g == 1 else "1"}, only=None, timeout=to))
-    run.bounds = dict(hosts="all (open or closed) host trees decodable from <= %d choices, 6 grammars (assignment language, XML-like self-embedding, left-recursive expressions, settings with alternatives of different length, a nonterminal-like terminal on the recursion path, a recursion that cannot reach the inserted nonterminal)" % L,
+    run.bounds = dict(hosts="all (open or closed) host trees decodable from <= %d choices, 8 grammars (assignment language, XML-like self-embedding, left-recursive expressions, settings with alternatives of different length, a nonterminal-like terminal on the recursion path, a recursion that cannot reach the inserted nonterminal, a chain of unit productions, a start symbol on a right-hand side); also with the first inner subtree of every other nonterminal as host" % L,
                       inserted="for every nonterminal: an open leaf, a smallest closed tree, a one-step expansion", methods="all 7 non-empty subsets of {direct, self embedding, context addition}")
     run.engines = dict(crosshair="crosshair-tool 0.0.110 on z3 4.11.2")
     run.trusted = ["tree validator and reference traversal in the harness"]
